@@ -182,3 +182,19 @@ PROPS["C03"] = simple(
     level_note="Trusted: the classifier in kit/gen/http.go (its grey zone: header-name case, odd spacing, obs-fold, 4-digit or HTTP/2 status lines, trailing bytes after the object, fragments in "
                "Location) and net/url's reference resolution. One redirect budget per process, as in production (client always uses 20).",
 )
+
+PROPS["C04"] = simple(
+    "verifchk/c04", "TestVerifC04", "exploration",
+    "(1) addresses built from components (so the oracle knows the decoded path and query without net/url): hostile path segments and queries (%0d%0a, encoded request-smuggling "
+    "payloads, %00, %20, %2F, %23, %25, non-ASCII, invalid UTF-8), fragments, userinfo, upper-case scheme, two ports, IPv6, and http://, ftp://, scheme-less, opaque and "
+    "leading-space forms aimed at a plaintext canary; fetched through client.FetchURL, pub.New and pub.FetchUserInput; (2) webfinger handles with hostile user parts (&, =, #, %, "
+    "CR/LF, spaces, extra resource= parameters) and hostile domains (CR/LF, userinfo, path, IPv6 zone); (3) every request issued while building and harvesting generated multi-host "
+    "worlds. Non-trivial: every case; distinct = case descriptor.",
+    shards=dict(quick=6, thorough=16),
+    floor=dict(evaluations=1500, distinct=1000, requests_parsed=1000, non_https_or_unparsable_urls=50),
+    technique="runtime monitor: strict grammar over the raw bytes of every connection received by the loopback TLS simulator + plaintext canary (+ strace connect() set in the thorough tier)",
+    level_text="The simulator logs the raw bytes of each connection; every one must be exactly 'GET <target> HTTP/1.0 CRLF Host: <authority dialled> CRLF Accept: <one of the two constants> CRLF CRLF' "
+               "with a target free of control bytes and fragments whose percent-decoding equals the generator's own path and query; nothing but a TLS ClientHello may reach the plaintext canary and "
+               "nothing at all may be sent for non-https addresses. Sampled.",
+    level_note="Trusted: the simulator's byte log and the grammar in harness/verifchk/c04. A raw space or non-ASCII byte inside the target (Go keeps RawQuery verbatim) adds no line, header or request; it is counted (raw_sp_in_target), not flagged.",
+)
